@@ -522,28 +522,44 @@ package types
 //@   for C13 C03
 //@   ensures fresh(r) && r.total == header.Total && r.hash == header.Hash && r.count == 0 && len(r.parts) == header.Total
 
-// ---------------------------------------------------------------- C17: transaction accessors (transactions are immutable)
-//@ spec func gpOf(tx *Transaction) int
-//@ trusted func (tx *Transaction) GasPrice() (r *big.Int)
-//@   ensures fresh(r) && r.v == gpOf(tx) && r.v >= 0
-//@ trusted func (tx *Transaction) GasPriceCmp(other *Transaction) (r int)
-//@   ensures (r < 0 <==> gpOf(tx) < gpOf(other)) && (r == 0 <==> gpOf(tx) == gpOf(other)) && (r > 0 <==> gpOf(tx) > gpOf(other))
-//@ trusted func (tx *Transaction) GasPriceIntCmp(other *big.Int) (r int)
-//@   requires other != nil
-//@   ensures (r < 0 <==> gpOf(tx) < other.v) && (r == 0 <==> gpOf(tx) == other.v) && (r > 0 <==> gpOf(tx) > other.v)
-//@ spec func txNonce(tx *Transaction) int
-//@ spec func txGas(tx *Transaction) int
-//@ spec func txCost(tx *Transaction) int
-//@ spec func txValue(tx *Transaction) int
+// ---------------------------------------------------------------- C17: transaction accessors
+// The accessors return the transaction's own fields (big integers as fresh copies); the spec functions
+// other contracts use are those fields.
+//@ spec func gpOf(tx *Transaction) int = tx.data.Price.v
+//@ spec func txNonce(tx *Transaction) int = tx.data.AccountNonce
+//@ spec func txGas(tx *Transaction) int = tx.data.GasLimit
+//@ spec func txCost(tx *Transaction) int = tx.data.Price.v * tx.data.GasLimit + tx.data.Amount.v
+//@ spec func txValue(tx *Transaction) int = tx.data.Amount.v
 //@ spec func txSize(tx *Transaction) int
-//@ trusted func (tx *Transaction) Nonce() (r uint64)
+//@ spec func wfTx(tx *Transaction) bool = tx != nil && tx.data.Price != nil && tx.data.Amount != nil && tx.data.Price.v >= 0
+//@ func (tx *Transaction) GasPrice() (r *big.Int)
+//@   for C17
+//@   requires wfTx(tx)
+//@   ensures fresh(r) && r.v == gpOf(tx) && r.v >= 0
+//@ func (tx *Transaction) GasPriceCmp(other *Transaction) (r int)
+//@   for C17
+//@   requires wfTx(tx) && wfTx(other)
+//@   ensures (r < 0 <==> gpOf(tx) < gpOf(other)) && (r == 0 <==> gpOf(tx) == gpOf(other)) && (r > 0 <==> gpOf(tx) > gpOf(other))
+//@ func (tx *Transaction) GasPriceIntCmp(other *big.Int) (r int)
+//@   for C17
+//@   requires wfTx(tx) && other != nil
+//@   ensures (r < 0 <==> gpOf(tx) < other.v) && (r == 0 <==> gpOf(tx) == other.v) && (r > 0 <==> gpOf(tx) > other.v)
+//@ func (tx *Transaction) Nonce() (r uint64)
+//@   for C17
+//@   requires tx != nil
 //@   ensures r == txNonce(tx)
-//@ trusted func (tx *Transaction) Gas() (r uint64)
+//@ func (tx *Transaction) Gas() (r uint64)
+//@   for C17
+//@   requires tx != nil
 //@   ensures r == txGas(tx)
-//@ trusted func (tx *Transaction) Cost() (r *big.Int)
-//@   ensures r != nil && r.v == txCost(tx)
-//@ trusted func (tx *Transaction) Value() (r *big.Int)
-//@   ensures r != nil && r.v == txValue(tx)
+//@ func (tx *Transaction) Cost() (r *big.Int)
+//@   for C17
+//@   requires wfTx(tx)
+//@   ensures r != nil && fresh(r) && r.v == txCost(tx)
+//@ func (tx *Transaction) Value() (r *big.Int)
+//@   for C17
+//@   requires wfTx(tx)
+//@   ensures r != nil && fresh(r) && r.v == txValue(tx)
 //@ trusted func (tx *Transaction) Size() (r common.StorageSize)
 //@ trusted func (tx *Transaction) Data() (r []byte)
 //@ trusted func (tx *Transaction) To() (r *common.Address)
